@@ -428,6 +428,15 @@ func (env *SpecEnv) evalIdent(name string) (TV, error) {
 		if p, ok := ex.params[name]; ok {
 			return p, nil
 		}
+		for _, fv := range ex.fn.FreeVars {
+			if fv.Name() == name {
+				// captured variable: a pointer to the enclosing function's cell, or the value itself
+				if pt, ok := fv.Type().(*types.Pointer); ok {
+					return TV{ex.load(env.state(), LocCaptured{fv}), pt.Elem()}, nil
+				}
+				return TV{ex.val(env.st, fv), fv.Type()}, nil
+			}
+		}
 		if env.isPrePost || env.inOld {
 			// named results in postconditions are bound by bindResults; other locals are not visible
 		}
@@ -1425,4 +1434,10 @@ var badPattern = regexp.MustCompile(`\((ite|and|or|not|=>|=|<|<=|>|>=|\+|-|\*|/|
 
 func isSymChar(c byte) bool {
 	return c >= 'a' && c <= 'z' || c >= 'A' && c <= 'Z' || c >= '0' && c <= '9' || c == '_' || c == '.' || c == '!' || c == '$'
+}
+
+// isRefTypeNamedStruct: captured by value pointer-to-struct (e.g. receiver cw *T) vs captured cell (**T / *int).
+func isRefTypeNamedStruct(t types.Type) bool {
+	_, ok := t.Underlying().(*types.Struct)
+	return ok
 }
